@@ -111,7 +111,9 @@ class Contract:
         exit_facts=None,
         allocates=False,
         locals=None,
+        at=None,
     ):
+        self.at = at or {}  # program-point assertions: {statement source prefix: fn(c, L) -> {name: goal}}
         self.locals = locals or {}  # static types of container-valued locals ([] / set() / {} literals)
         self.entry_facts = entry_facts  # fn(c) -> [Fact] assumed at function entry (verification only)
         self.exit_facts = exit_facts  # fn(c) -> [Fact] assumed before the exit obligations
@@ -217,6 +219,8 @@ def find_function(qname):
     for d in found.decorator_list:
         if isinstance(d, ast.Name) and d.id in ("staticmethod", "classmethod", "property"):
             kind = d.id
+        if isinstance(d, ast.Name) and d.id == "cached_property":
+            kind = "property"
     return found, cls, kind
 
 
